@@ -160,6 +160,11 @@ pub fn check_shape(mode: GameMode, pts: &[PathControlPoint], bufs: &mut CurveBuf
                 viol("prefix", format!("adjusted path is not a prefix of the natural path: {cp:?} vs {np:?}"), Some(l), acc);
                 continue;
             }
+            // "the natural curve cut at L": the cumulative lengths before the cut are the natural ones
+            if c.lengths().len() == m && nl.len() >= m - 1 && c.lengths()[..m - 1].iter().map(|x| x.to_bits()).ne(nl[..m - 1].iter().map(|x| x.to_bits())) {
+                viol("lengths-before-cut", format!("cumulative lengths before the cut {:?} differ from the natural curve's {:?}", &c.lengths()[..m - 1], &nl[..m - 1]), Some(l), acc);
+                continue;
+            }
             let a = np[m - 2];
             let b = np[m - 1];
             let seg = b - a;
@@ -222,7 +227,8 @@ pub fn run(tier: Tier) -> i32 {
     }
     // almost straight three-point perfect curves (fewest arc sub-points)
     {
-        let shapes = super::curves::near_collinear_arcs();
+        let mut shapes = super::curves::near_collinear_arcs();
+        shapes.extend(super::curves::far_almost_collinear_arcs());
         let total = shapes.len() as u64 * modes.len() as u64;
         let a = par_range(total, |idx, acc| {
             let mode = modes[(idx % modes.len() as u64) as usize];
@@ -233,7 +239,7 @@ pub fn run(tier: Tier) -> i32 {
                 acc.violation(Violation::new("panic", format!("{mode:?} {}: {p}", points_json(pts)), case_json(mode, pts, None)));
             }
         });
-        bounds.push(json!({"almost_straight_three_point_perfect_curves": shapes.len(), "modes": modes.len()}));
+        bounds.push(json!({"almost_straight_three_point_perfect_curves_near_and_far_from_the_origin": shapes.len(), "modes": modes.len()}));
         acc = acc.merge(a);
     }
     let summary = Summary {
